@@ -213,7 +213,10 @@ def r2(run: Run, src):
                   f'(letters -> column_index_from_string - 1, digits -> int - 1)', fact=f'{got!r}', loc=loc_of(fi.module.path, fi.node))
     report(rc, fi, 'text coordinates to 0-based')
     # empty row text -> None (whole column)
-    has_none = any(isinstance(st, ast.Assign) and isinstance(st.value, ast.Constant) and st.value.value is None and
+    def yields_none(e):
+        return (isinstance(e, ast.Constant) and e.value is None) or \
+            (isinstance(e, ast.IfExp) and (yields_none(e.body) or yields_none(e.orelse)))
+    has_none = any(isinstance(st, ast.Assign) and yields_none(st.value) and
                    any(isinstance(t, ast.Attribute) and t.attr == 'row' for t in st.targets) for st in ast.walk(fi.node))
     run.check(has_none, 'C02.R2', 'handle_cell/whole-column', 'whole-column-row', 'an empty row text is not turned into None '
               '(whole column)', fact='row None for A:A', loc=loc_of(fi.module.path, fi.node))
@@ -236,7 +239,12 @@ def r2(run: Run, src):
             raise AnalysisError('C02.R2', f'Excel.{name} not found')
         env = dict(env0)
         env.update(params)
-        rc = RoleChecker(fi.node, env, fields, self_attrs=env0, qual=fi.qualname)
+        # helpers of the class that the method delegates to (e.g. a `_read_value(title, column, row)`) are analysed in place
+        from ..inline import inline_methods, class_resolver
+        stubs = {'_fill_cell', '_get_vertical_range', '_get_horizontal_range', '_get_matrix', 'fill_cell', 'get_range', 'get_matrix',
+                 'get_cells', 'get_similar_second', '_handle_cell'}
+        node = inline_methods(fi.node, class_resolver(src, ex, fi), depth=2, exclude=stubs)
+        rc = RoleChecker(node, env, fields, self_attrs=env0, qual=fi.qualname)
         rc.env[('call', '_fill_cell')] = lambda r, node, args, kwargs: args[0] if args else None
         rc.env[('call', '_get_vertical_range')] = lambda r, node, args, kwargs: Iter(CellR('0'))
         rc.env[('call', '_get_horizontal_range')] = lambda r, node, args, kwargs: Iter(CellR('0'))
@@ -276,7 +284,7 @@ def r2(run: Run, src):
     run_method('get_range', {'first': CellR('0'), 'second': CellR('0')}, 'straight-line test')
     run_method('get_similar_second', {'base': CellR('0'), 'first': CellR('0'), 'second': CellR('0')}, 'base + (second - first) per axis')
     run_method('get_cells', {}, 'enumeration of the three data levels')
-    if checked < 25:
+    if checked < 16:
         raise AnalysisError('C02.R2', f'only {checked} role sinks were analysed')
     # positional Cell(...) constructions anywhere else in the package use the dataclass order
     n = 0
@@ -328,10 +336,20 @@ def r3(run: Run, src):
         isinstance(t, ast.Attribute) and t.attr == 'title' for t in st.targets)]
     if not stores:
         raise AnalysisError('C02.R3', 'handle_cell never stores a sheet index')
+    from .common import strict_get_lookup
+    strict_names = set()
+    for g_ in ast.walk(fn):
+        if isinstance(g_, ast.Call) and isinstance(g_.func, ast.Attribute) and g_.func.attr == 'get' and \
+                isinstance(g_.func.value, ast.Name) and g_.func.value.id == titles and g_.args and \
+                ast.unparse(g_.args[0]) == f'{cellp}.title':
+            nm = strict_get_lookup(src, fi, g_)
+            if nm:
+                strict_names.add(nm)
     for st in stores:
         v = st.value
         ok = isinstance(v, ast.Subscript) and isinstance(v.value, ast.Name) and v.value.id == titles and \
             ast.unparse(v.slice) == f'{cellp}.title'
+        ok = ok or (isinstance(v, ast.Name) and v.id in strict_names)     # titles.get(title, SENTINEL) + `is SENTINEL: raise`
         run.check(ok, 'C02.R3', f'handle_cell/`{ast.unparse(st)[:50]}`', 'loose-title-resolution',
                   f'the sheet index is computed as `{ast.unparse(v)[:60]}`: a title written in a formula must resolve through the '
                   f'title map only (no default sheet, no numeric interpretation, no fallback)', fact='titles[cell.title]',
@@ -342,7 +360,7 @@ def r3(run: Run, src):
     for st in stores:
         conds = path_conditions(fn, st, parents)
         extra = [ast.unparse(t) for t, pol in conds if 'isinstance' not in ast.unparse(t) and 'has_handled' not in ast.unparse(t)
-                 and ' in ' not in ast.unparse(t)]
+                 and ' in ' not in ast.unparse(t) and not any(ast.unparse(t).startswith(f'{nm} is ') for nm in strict_names)]
         run.check(not extra, 'C02.R3', 'handle_cell/title-guard', 'conditional-title-resolution',
                   f'the title lookup is additionally conditioned on {extra}: some str titles bypass the title map',
                   fact='every str title goes through the map', loc=loc_of(fi.module.path, st))
